@@ -423,6 +423,15 @@ func (d *drv) probe(tag string) {
 		}
 		if tcpL {
 			listening = append(listening, []interface{}{"tcp", a})
+			// a prober that sends garbage and then RESETS the connection while the server is draining it: the socket
+			// error must not carry the client's address into any label
+			if c, err := d.dial(addr); err == nil {
+				c.Write(bytes.Repeat([]byte{0x5a}, 60))
+				time.Sleep(3 * time.Millisecond)
+				c.(*net.TCPConn).SetLinger(0)
+				c.Close()
+				time.Sleep(3 * time.Millisecond)
+			}
 		}
 		if d.udpHeld(addr) {
 			listening = append(listening, []interface{}{"udp", a})
